@@ -227,6 +227,43 @@ def _reached_without(h, target, avoid):
     return h.reaches(h.blocks[0], target, avoid=(avoid,))
 
 
+def out_contract_rule(chk, prog):
+    """K6-outcontract: callers of sqfs_compressor_t.do_block size their copies by its result, taking for granted that a
+    positive result is at most the room they offered (`outsize`).  Where an implementation answers a number it *decoded
+    from the input block* (the unpacked size in an LZMA header), that number is compared with outsize on every path to
+    the return -- a bound by anything else (the configured block size) lets a crafted header make the caller copy more
+    than the decoder was allowed to produce."""
+    from ..errflow import ret_sources
+    from ..bounds2 import Bounder, Cap
+    n = 0
+    for f in sorted(prog.slot_impls(("struct.sqfs_compressor_t", "do_block")), key=lambda x: x.qname):
+        if f.decl or len(f.params) < 5:
+            continue
+        f.build()
+        inp, outsize = f.params[1], f.params[4]
+        for (v, b) in ret_sources(f):
+            w = strip_casts(v)
+            if w.is_const:
+                continue
+            decoded = False
+            for x in backward_slice(v, phi_control=False, limit=400):
+                if x.is_inst and x.op == "load":
+                    base = strip_casts(resolve_ptr(prog, x.ops[0], f.unit)[0])
+                    if base is inp:
+                        decoded = True
+            if not decoded:
+                continue
+            n += 1
+            chk.analysed(f)
+            inst = "%s:result@%d" % (f.name, b.term.line or 0)
+            if Bounder(prog, f).bounded(v, b.term, Cap(syms=[outsize], desc="outsize")):
+                chk.ok("K6-outcontract", inst, b.term, "a size decoded from the input is answered only where it was compared with outsize")
+            else:
+                chk.violation("K6-outcontract", inst, b.term, "%s answers a size it decoded from the input block without having compared it "
+                              "with outsize: the callers copy that many bytes out of a buffer of outsize bytes" % f.name)
+    return n
+
+
 def loop_guard_rule(chk, prog):
     """C05-b: in the recursive tree reader the link of a child and the recursion are dominated by the rejecting
     test of the ancestor check"""
@@ -333,15 +370,29 @@ def table_window_rule(chk, prog):
                               "taken from the image are not confined to the table's region")
     m = prog.need_fn("sqfs_meta_reader_seek")
     chk.analysed(m)
-    reads = [c for c in m.calls() if slot_call(c) == ("struct.sqfs_file_t", "read_at")]
-    ok = bool(reads)
-    for r in reads:
+    # the reads may sit in static helpers of the same unit: what guards the helper's call guards them
+    cl, _e, _u = prog.reachable_from([m], stop=lambda g, u=m.unit: g.unit is not u)
+
+    def guard_fields(g, bb, depth=0):
         flds = set()
-        for cond, outcome, br in m.guards_at(r.bb):
-            for (s, nme) in fields_in_slice(cond):
+        for cond, outcome, br in g.guards_at(bb):
+            for (s_, nme) in fields_in_slice(cond):
                 flds.add(nme)
-        if not ({"start", "limit"} <= flds):
+        if g is not m and depth < 3:
+            sites = [c for c in prog.callers_of(g) if c.fn in cl]
+            if sites:
+                common = None
+                for c in sites:
+                    gf = guard_fields(c.fn.build(), c.bb, depth + 1)
+                    common = gf if common is None else (common & gf)
+                flds |= common or set()
+        return flds
+    reads = [(g, c) for g in cl for c in g.build().calls() if slot_call(c) == ("struct.sqfs_file_t", "read_at")]
+    ok = bool(reads)
+    for (g, r) in reads:
+        if not ({"start", "limit"} <= guard_fields(g, r.bb)):
             ok = False
+    reads = [c for (_g, c) in reads]
     if ok:
         chk.ok("K13-window", "sqfs_meta_reader_seek:window", reads[0], "every read_at is preceded by tests against start and limit")
     else:
@@ -437,6 +488,13 @@ def run(chk):
     chk.floor("K1-loop", 3)
     chk.floor("K13-window", 6)
     chk.floor("K1-super", 6)
+    # the metadata reader's cursor: offset <= data_used <= sizeof(data) at every store, every copy out of data + offset is
+    # at most data_used - offset long (sa/slack.py)
+    out_contract_rule(chk, load_program("rdsquashfs"))
+    chk.floor("K6-outcontract", 1)
+    from ..slack import run_fill
+    run_fill(chk, load_program("rdsquashfs"), only_structs={"struct.sqfs_meta_reader_t"})
+    chk.floor("K6-fill", 4)
     chk.floor("K13-alloc", 15)
     chk.floor("K8-dangling", 30)
     controls(chk)
